@@ -18,6 +18,10 @@ for d in sorted(glob.glob(os.path.join(root, "*-*"))):
         if v.get("exit") == 1 and v.get("violations"):
             kind = "no-failing-input-found" if "no-failing-input-found" in " ".join(v["violations"]) else "replay"
             det.append("%s (%s, %ss)" % (k, kind, v.get("secs")))
+    o2 = m.get("outcome_rerun")
+    if o2:
+        det2 = ["%s (%ss)" % (k, v.get("secs")) for k, v in (o2.get("checks") or {}).items() if v.get("exit") == 1 and v.get("violations")]
+        notes[name] = (notes.get(name, "") + " Re-run against the current checks: " + ("; ".join(det2) if det2 else "missed") + ".").strip()
     rows.append((name, m.get("property"), m.get("title", ""), ", ".join(m.get("files", [])), "yes" if o.get("confirmed") else "NO",
                  "; ".join(det) if det else "**missed**", notes.get(name, "")))
 with open(os.path.join(root, "README.md"), "w") as f:
@@ -29,6 +33,8 @@ with open(os.path.join(root, "README.md"), "w") as f:
     f.write("| seed | property | change | files | confirmed | detected by (first run) | afterwards |\n|---|---|---|---|---|---|---|\n")
     for r in rows:
         f.write("| " + " | ".join(str(x).replace("|", "/") for x in r) + " |\n")
-    n = len(rows); d = sum(1 for r in rows if r[5] != "**missed**"); late = sum(1 for r in rows if r[5] == "**missed**" and r[6])
-    f.write("\n%d seeds, %d detected when first run, %d more after strengthening, %d not detected.\n" % (n, d, late, n - d - late))
+    n = len(rows)
+    islate = lambda r: (r[5] == "**missed**" and r[6]) or "missed by the check as first built" in r[6]
+    late = sum(1 for r in rows if islate(r)); d = sum(1 for r in rows if r[5] != "**missed**" and not islate(r))
+    f.write("\n%d seeds, %d detected by the check as first built, %d more after strengthening (see the last column), %d not detected.\n" % (n, d, late, n - d - late))
 print("seeded/README.md: %d rows" % len(rows))
